@@ -74,7 +74,11 @@ def describe(f, case):
     """structured description of a failure: site (operation), object kind / family / carrier, which check failed, and the
     structural condition tags used by the known-finding predicates"""
     t = f.line.split(" ")
-    info = {"check": f.kind, "detail": f.detail}
+    detail, _, tg = f.detail.partition(" tags:")
+    info = {"check": f.kind, "detail": detail}
+    for kv in tg.split():
+        if "=" in kv:
+            k, v = kv.split("=", 1); info[k] = v
     if t[0] in ("op", "qry"):
         info["site"] = t[2]; k = kind_of_object(case, t[1])
     elif t[0] == "new":
